@@ -32,10 +32,11 @@ Lemma feed_lines_app X Y :
 Proof.
   induction X as [|l X IH]; cbn [app Model.feed_lines].
   - destruct (feed_lines Y); reflexivity.
-  - destruct (parse_msg M ws parse (decode l)) as [[m|]|e]; [| |reflexivity].
+  - destruct (parse_msg M ws parse (decode l)) as [[m|]|e].
     + rewrite IH. destruct (feed_lines X) as [d [e|]]; [reflexivity|].
       destruct (feed_lines Y). reflexivity.
     + exact IH.
+    + destruct (read_catches e); [exact IH|reflexivity].
 Qed.
 
 (* extending the stream by one chunk *)
@@ -72,16 +73,19 @@ Proof.
   destruct (negb (c =? gen.T11.EAGAIN) || (gen.T11.EAGAIN_MAX <? eagains st)); cbn; auto.
 Qed.
 
+Lemma enqueue_in msgs (st : state) :
+  inbuffer (enqueue M msgs st) = inbuffer st /\ received (enqueue M msgs st) = received st /\
+  delivered (enqueue M msgs st) = delivered st.
+Proof. unfold Model.enqueue. destruct (encode_str (concat msgs)); cbn; auto. Qed.
+
 Lemma send_in msgs s (st : state) :
   inbuffer (send_if_msgs msgs s st) = inbuffer st /\ received (send_if_msgs msgs s st) = received st /\
   delivered (send_if_msgs msgs s st) = delivered st.
 Proof.
   unfold Model.send_if_msgs. destruct (connected st); cbn [negb]; [|auto].
-  unfold Model.try_send. set (st1 := enqueue M msgs st).
-  assert (H1 : inbuffer st1 = inbuffer st /\ received st1 = received st /\ delivered st1 = delivered st)
-    by (cbn; auto).
-  destruct (outbuffer st1); [exact H1|].
-  destruct (encode_str (n :: s0)); [|cbn; exact H1].
+  pose proof (enqueue_in msgs st) as H1. set (st1 := enqueue M msgs st) in *.
+  destruct (dead st1); [exact H1|].
+  unfold Model.try_send. destruct (outbuffer st1); [exact H1|].
   destruct s as [k|c]; [cbn; exact H1|].
   destruct (handle_error_in (Some c) st1) as (A & B & C & _). rewrite A, B, C. exact H1.
 Qed.
@@ -91,7 +95,9 @@ Lemma send_idle s (st : state) :
   outbuffer (send_if_msgs [] s st) = [] /\ dead (send_if_msgs [] s st) = dead st.
 Proof.
   intro H. unfold Model.send_if_msgs. destruct (connected st); cbn [negb]; [|auto].
-  unfold Model.try_send. cbn [enqueue outbuffer concat]. rewrite H. cbn. rewrite H. auto.
+  unfold Model.enqueue. cbn [concat encode_str forallb utf8 flat_map dead].
+  destruct (dead st) eqn:Ed; cbn [outbuffer dead]; rewrite ?app_nil_r; [auto|].
+  unfold Model.try_send. cbn [outbuffer]. rewrite H. cbn. auto.
 Qed.
 
 (* ---------------------------------------------------------------- *)
@@ -226,5 +232,43 @@ Proof.
   rewrite A1, A2, B1, B2, E. repeat split; auto.
   intro Hn. rewrite C1, C2; [rewrite E; reflexivity| |]; congruence.
 Qed.
+
+(* ---------------------------------------------------------------- *)
+(* With the except clause around parseMsg (repair of C07.F4): if the parser
+   only ever raises exceptions that clause catches, no received line can end the
+   driver, a rejected line is skipped and the lines after it are delivered. *)
+Section NoKill.
+Hypothesis parse_caught : forall s e, parse s = Raise e -> read_catches e = true.
+
+Lemma parse_msg_caught s e : parse_msg M ws parse s = Raise e -> read_catches e = true.
+Proof.
+  unfold Model.parse_msg. destruct (strip ws s) as [|c s']; [discriminate|].
+  destruct (parse (c :: s')) as [m|e'] eqn:Ep; cbn; [discriminate|].
+  intro H. inversion H; subst. eapply parse_caught. exact Ep.
+Qed.
+
+Lemma feed_lines_total lines :
+  feed_lines lines = (accepted_msgs M decode ws parse lines, None).
+Proof.
+  induction lines as [|l ls IH]; [reflexivity|].
+  cbn [Model.feed_lines Model.accepted_msgs flat_map].
+  fold (accepted_msgs M decode ws parse ls).
+  destruct (parse_msg M ws parse (decode l)) as [[m|]|e] eqn:Ep.
+  - rewrite IH. reflexivity.
+  - exact IH.
+  - rewrite (parse_msg_caught _ _ Ep). exact IH.
+Qed.
+
+Theorem in_reads_never_killed cs :
+  Forall (fun c => c <> []) cs ->
+  let st := run_trace (init M) (reads cs) in
+  dead st = None /\
+  delivered st = accepted_msgs M decode ws parse (spec_lines (concat cs)) /\
+  inbuffer st = spec_rest (concat cs).
+Proof.
+  intro Hne. cbn zeta. destruct (in_reads_spec cs Hne) as (A & B & C).
+  unfold Model.spec_in in *. rewrite feed_lines_total in *. cbn [fst snd] in *. auto.
+Qed.
+End NoKill.
 
 End In.
